@@ -21,7 +21,7 @@ out = []
 out.append("### 9.6 Validation of the machinery: seeded changes, reverted fixes, determinism\n")
 out.append("`./selftest seeded` applies every change under `/verif/seeded/<id>/<variant>/patch.diff` to a scratch worktree of")
 out.append("`/repo` (never to `/repo` itself) and runs the quick tier of the checks with `VERIF_REPO=<worktree>`.")
-out.append(f"The {len(res)} changes were written in three rounds by independent sub-agents that saw only the text of one property (rounds 2 and 3")
+out.append(f"The {len(res)} changes were written in four rounds by independent sub-agents that saw only the text of one property (rounds 2 to 4")
 out.append("also one-paragraph summaries of the earlier changes to avoid) and a scratch worktree - nothing from `/verif`.")
 out.append("Each was confirmed by the builder before being kept: the patch applies, the repository's whole suite (51 tests + 6")
 out.append("doc-tests) passes with it, its demonstration fails with it and passes without it (`meta.json` records the commands).")
@@ -33,8 +33,21 @@ out.append("Changes first missed by their target check and what was strengthened
 out.append("added to the C14 alphabet), C09/d (JSON forms of Evaluation/Point added to the C09 entry points), C13/c (calibrated")
 out.append("forged-proof synthesis, then a wider calibration family), C13/e (an honest verification interleaved with every")
 out.append("tampered one: a per-thread memo keyed on too little), C10/f (keys created on one thread and used on another); the")
-out.append("descriptions of further round-2/3 changes were used to add the sweeps and histories of section 9.5 before those")
-out.append("changes were run. The reverted D7 fix first produced a harness panic instead of a")
+out.append("C04/h (a larger candidate family for the near-collision histories: two clients whose randomness agree in 4 bytes); the")
+out.append("descriptions of further round-2..4 changes were used to add the sweeps and histories of section 9.5 before those")
+out.append("changes were run.")
+out.append("")
+out.append("**Not caught: C04/g.** That change replaces an epoch longer than 64 bytes by a digest computed with a new private")
+out.append("label before it enters the derivation, so the epoch E and the 32-byte epoch digest(E) collide - and nothing else")
+out.append("does. The colliding partner can only be named by evaluating the private function the change introduces; no bounded")
+out.append("enumeration of inputs that is independent of the changed code contains that pair (2^-256 by chance). This is the")
+out.append("limit of the technique for injectivity statements over unbounded byte strings (see section 6): the check decides the")
+out.append("enumerated family, and relations between inputs that exist only through code added by a change are outside it. A")
+out.append("code-aware oracle (a reference implementation of the documented derivation, compared output by output) would catch")
+out.append("it, at the price of raising an alarm on every legitimate change of the derivation; the property does not fix the")
+out.append("derivation, so the harness deliberately has no such oracle.")
+out.append("")
+out.append("The reverted D7 fix first produced a harness panic instead of a")
 out.append("violation (ff's `sqrt_ratio` trips a debug assertion under the wrong generator) - calls into the code under test")
 out.append("are now guarded there and harness errors no longer mask violations found elsewhere.\n")
 out.append("| change | what it does | needs, to manifest | caught by target check (first key) | also caught by |")
